@@ -169,3 +169,10 @@ Theorem C10_no_lock_cycle : LockOrder.cyclic_locks LockTable.lock_table = [].
 Proof. vm_compute. reflexivity. Qed.
 Print Assumptions C10_no_lock_cycle.
 
+
+(* an abandoned or rejected RPC takes the error paths of the functions it runs through: none of them - in the source
+   of this run - returns with a lock it took still held (each return and the end of each body, branch by branch;
+   see C11_no_lock_leaked), so a session that went away cannot leave a lock behind for the next writer to wait on *)
+Theorem C10_no_lock_leaked : LockOrder.no_lock_leaked LockTable.lock_table = true.
+Proof. vm_compute. reflexivity. Qed.
+Print Assumptions C10_no_lock_leaked.
